@@ -6,6 +6,7 @@ package harness
 // (operator table, precedence, short-circuit, left-to-right single evaluation, errors for ill-typed operations).
 
 import (
+	"errors"
 	"fmt"
 	"math"
 	"strconv"
@@ -254,7 +255,7 @@ func evalExpr(e *Expr, env evalEnv) (mval, error) {
 	switch e.K {
 	case "num":
 		f, err := strconv.ParseFloat(e.V, 64)
-		if err != nil {
+		if err != nil && !errors.Is(err, strconv.ErrRange) { // beyond the largest double: infinity, as IEEE-754 rounds it
 			return mval{}, evalErrf("bad number literal %q", e.V)
 		}
 		return numVal(f), nil
